@@ -213,6 +213,10 @@ def document_text(text, settings=None, title="T", module="M", tmpdir=None, encod
     # the CLI derives title and module name from the file name: only cases whose requested title and module name can be
     # had that way take the long way round
     stem = module if module != "M" else title
+    # settings="api-default": the Documenter is constructed without a settings argument, as the project's own examples do
+    api_default = isinstance(settings, str) and settings == "api-default"
+    if api_default:
+        settings, mode = None, "documenter"
     if mode != "documenter" and tmpdir is None and stem.isidentifier() and (settings is None or hasattr(settings, "_vf_overrides")):
         PIPELINE_STATS[mode] += 1
         return _through_main(text, settings, stem, encoding, newline, mode == "main-stdout"), None
@@ -245,7 +249,11 @@ def document_text(text, settings=None, title="T", module="M", tmpdir=None, encod
                         f2.write("#[[[\n# interloper doc line\n#]]\nfunction(interloper_fn_xyz a)\nendfunction()\ncpp_class(InterloperCls)\ncpp_end_class()\n")
                 other = Documenter(op, "InterloperT", "InterloperM", st)
                 PIPELINE_STATS["documenters_constructed_in_between"] = PIPELINE_STATS.get("documenters_constructed_in_between", 0) + 1
-            doc = Documenter(path, title, module, st)
+            if api_default:
+                doc = Documenter(path, title, module)
+                PIPELINE_STATS["documenters_with_the_default_settings_object"] = PIPELINE_STATS.get("documenters_with_the_default_settings_object", 0) + 1
+            else:
+                doc = Documenter(path, title, module, st)
             holder["doc"] = doc
             first = other is not None and PIPELINE_STATS["documenter_calls"] % 8 == 1
             if first:
